@@ -95,6 +95,8 @@ func main() {
 			cases = append(cases, names.AutonameAcrossPasses()...)
 			cases = append(cases, names.ChanC11(r)...)
 			cases = append(cases, names.StaleC11()...)
+			cases = append(cases, names.TagsC11(r)...)
+			cases = append(cases, names.IfaceC11(r)...)
 			cases = append(cases, names.TwoPackagesC11()...)
 		case "C12":
 			n, m := 30, 300
